@@ -24,6 +24,7 @@ TraceReset ==
   /\ nh' = [x \in Sessions |-> "none"]
   /\ pull' = PullInit /\ clock' = 0 /\ nticks' = 0 /\ down' = FALSE /\ act' = [name |-> "init"]
   /\ push' = [t \in PushTargets |-> "idle"] /\ patt' = 0
+  /\ idl' = [x \in Sessions |-> "new"] /\ nsweeps' = 0
   /\ failed' = FALSE
 
 PushRest == patt' = patt /\ UNCHANGED <<grp, inp, owner, ss, closed, nh, pull, clock, nticks>>
@@ -51,6 +52,7 @@ Do(name, e) ==
     [] name = "PushOk"    -> PushOk(e.x) /\ PushRest
     [] name = "PushFail"  -> PushFail(e.x) /\ PushRest
     [] name = "PushEnd"   -> PushEnd(e.x) /\ PushRest
+    [] name = "Sweep"     -> Sweep
 
 \* C03 StatOnlyAttached: the stat API lists exactly the attached network / GB28181 input and the attached subscribers
 Listed(i, s) == (IF i \in NetPubs \cup PsPubs THEN {i} ELSE {}) \cup {x \in Subs : s[x] = "in"}
@@ -62,7 +64,8 @@ TraceStep ==
      IF failed THEN UNCHANGED vars /\ failed' = failed
      ELSE /\ Do(e.ev, e)
           /\ (e.ev # "Shutdown" => down' = down)
-          /\ ((~IsPushEv(e.ev) /\ e.ev # "Shutdown") => PushFx)
+          /\ ((~IsPushEv(e.ev) /\ e.ev \notin {"Shutdown", "Sweep"}) => (PushFx /\ IdlFx /\ nsweeps' = nsweeps))
+          /\ ((IsPushEv(e.ev) \/ e.ev = "Shutdown") => UNCHANGED <<idl, nsweeps>>)
           /\ LET good == /\ act'.obs = e.obs
                          /\ ("pipe" \in DOMAIN e => e.pipe = (IF owner' = "" THEN <<>> ELSE PipeComps))
                          /\ ("filesOk" \in DOMAIN e => e.filesOk)
